@@ -27,21 +27,23 @@ func sortNaturalFilter(array []any, key any) any {
 	case reflect.ValueOf(array).Len() == 0:
 	case key != nil:
 		sort.Sort(keySortable{result, func(m any) string {
-			rv := reflect.ValueOf(m)
-			if rv.Kind() != reflect.Map {
+			rv := reflect.ValueOf(values.ToLiquid(m))
+			if rv.Kind() != reflect.Map || rv.Type().Key().Kind() != reflect.String {
 				return ""
 			}
-			ev := rv.MapIndex(reflect.ValueOf(key))
-			if ev.CanInterface() {
+			ev := rv.MapIndex(reflect.ValueOf(fmt.Sprint(key)).Convert(rv.Type().Key()))
+			if ev.IsValid() && ev.CanInterface() {
 				if s, ok := ev.Interface().(string); ok {
 					return strings.ToLower(s)
 				}
 			}
 			return ""
 		}})
-	case reflect.TypeOf(array[0]).Kind() == reflect.String:
+	case array[0] != nil && reflect.TypeOf(array[0]).Kind() == reflect.String:
 		sort.Sort(keySortable{result, func(s any) string {
-			return strings.ToUpper(s.(string))
+			// elements that are not strings sort first, like a missing key
+			str, _ := s.(string)
+			return strings.ToUpper(str)
 		}})
 	}
 	return result
